@@ -74,10 +74,17 @@ def run(ctx, widen=False):
         elif kind < 0.3:
             b = round(rng.uniform(-3, 3), 2)
             bounds = (b, b)
-        else:
+        elif kind < 0.9:
             lo = rng.choice([round(rng.uniform(-6, 2), 2), 0.0, -2.0])
             bounds = (lo, rng.choice([round(lo + rng.uniform(0.1, 8), 2), 0.0 if lo < 0 else lo + 1.0]))
+        else:
+            # bounds of large magnitude (parameters such as bit widths or gate counts): steps are tiny relative to the bound
+            mag = rng.choice([1e3, 2.5e4, 1e6, 3e9])
+            lo = rng.choice([mag, -mag, -2 * mag])
+            bounds = (lo, lo + rng.choice([mag, 10.0, 2 * mag]))
         r = rng.random()
+        if bounds is not None and abs(bounds[0]) >= 1e3 and r < 0.5:
+            r = 0.7          # large bounds: start on a bound half of the time
         if bounds is None:
             x0 = round(rng.uniform(-5, 5), 3)
         elif r < 0.6:
@@ -90,6 +97,14 @@ def run(ctx, widen=False):
         lr = rng.choice([1e-6, 1e-3, 0.01, 0.1, 0.5, 2.0])
         max_iter = rng.choice([1, 2, 5, 50, 400])
         tol = rng.choice([1e-8, 1e-4, 1e-2])
+        if bounds is not None and abs(bounds[0]) >= 1e3 and rng.random() < 0.6:
+            # the regime of huge parameters and cautious steps: start on the bound the slope points away from, tiny learning rate
+            name = rng.choice(["linear", "quad", "shifted"])
+            f, fs, _ = COSTS[name]
+            slope_sign = 1 if name == "linear" else (1 if bounds[1] > (1.5 if name == "quad" else -3.0) else -1)
+            x0 = bounds[1] if slope_sign > 0 else bounds[0]
+            lr = rng.choice([1e-6, 1e-7, 1e-9])
+            max_iter = rng.choice([2, 5, 50])
         mom = rng.choice([0.9, 0.0, 0.5])
         inp = {"cost": fs, "x0": x0, "bounds": bounds, "learning_rate": lr, "max_iter": max_iter, "tolerance": tol, "momentum": mom}
         ctx.stats["evaluations"] += 1
@@ -117,6 +132,18 @@ def run(ctx, widen=False):
         # failure to converge must be an error, never a value: cases that cannot converge whatever the update rule does
         hopeless = (bounds is None and name == "linear") or \
                    (bounds is None and name in ("quad", "shifted") and lr <= 1e-6 and max_iter <= 50 and abs(x0 - (1.5 if name == "quad" else -3.0)) > 1.0 and tol <= 1e-2)
+        # … and runs that start ON a bound with the slope pointing into the interval, with steps so small that neither the other bound
+        # nor a flat region can be reached within max_iter: they have not converged and have not hit a bound after leaving it
+        if bounds is not None and not hopeless and name in ("quad", "shifted", "linear") and bounds[0] < bounds[1] and x0 in bounds and max_iter <= 50 and tol <= 1e-2:
+            g0 = (f(x0 + 1e-8) - f(x0 - 1e-8)) / 2e-8            # the slope as the implementation estimates it
+            inward = (x0 == bounds[0] and g0 < 0) or (x0 == bounds[1] and g0 > 0)
+            reach = 10 * lr * abs(g0) * max_iter * 2       # momentum <= 0.9: velocity <= 10 * lr * |g|; the slope changes by at most 2 * reach
+            room = (bounds[1] - bounds[0]) if name == "linear" else min(bounds[1] - bounds[0], abs(x0 - (1.5 if name == "quad" else -3.0)))
+            if inward and abs(g0) > 1.0 and 0 < reach < room / 4:
+                # the first step must really leave the bound in floating point
+                if x0 - lr * g0 != x0:
+                    hopeless = True
+                    ctx.stats["hopeless_runs_from_a_bound"] += 1
         if hopeless and status == "ok":
             ctx.violation("failing-input", "a run that cannot have converged (gradient far above the tolerance, no bound reached) is reported as a value", inp,
                           {k: (v if k != "x_history" else v[-3:]) for k, v in out.items()}, "RuntimeError")
